@@ -24,7 +24,8 @@ RULE = ('Zones: every distinct TZif file of the system database (quick: a strati
         'with the type the independent reader tzif_ref assigns to the interval containing the instant (dst() must be zero where '
         'the data says standard).  Load paths gettz(name), tzfile(path), tzfile(stream), ZoneInfoFile(tar built by the harness '
         'with regular, hard-link and symlink members), copy, deepcopy and pickle (all protocols) must be equal and answer '
-        'identically.  Non-trivial = instant within 3 h of a transition; distinct = (file hash, transition index, offset).')
+        'identically.  Non-trivial = instant within 3 h of a transition; distinct = (file hash, transition index, offset).'
+        ' Also: fractions of a second on both sides of every transition (>= 500 before 1970), data with 200 types and abbreviation tables beyond 127 bytes, and the wall-side reading of single-pre-image wall times under both fold values.')
 ASSUMPTIONS = ['vf/oracles/tzif_ref.py is the reading of the TZif bytes (cross-checked against stdlib zoneinfo each run)',
                'only the version-1 block is claimed (the block dateutil reads); after its last transition nothing is claimed',
                '/usr/share/zoneinfo is used as data only']
